@@ -5,11 +5,11 @@ from engine.driver import poly as P
 from engine.driver.core import Ob, eq, eqs
 from engine.driver.encode import Constraint
 from spec import catalogue as cat
-from spec.geomlib import G, EQ, GT, GE, LT, LE, NE, zeros, false_twin
+from spec.geomlib import G, EQ, GT, GE, LT, LE, NE, zeros, false_twin, eq_cleared
 
 ID = "C45"
 HARNESS = "C45_cable.cpp"
-EXPLANATION = ("CableTrackerSubsystem + CablePath with 0-2 via points (no surface obstacles) + CableSpring of the real library on 2-3 body "
+EXPLANATION = ("(also: the same cables through CableSubsystem/CableSpan without obstacles.) CableTrackerSubsystem + CablePath with 0-2 via points (no surface obstacles) + CableSpring of the real library on 2-3 body "
                "trees whose mass properties, frames, stations, coordinates and speeds are symbolic. Proved: getCableLength = sum of the "
                "straight segment lengths between the path points (station locations reported by the bodies) and >= the end-to-end "
                "distance; getCableLengthDot = exact time derivative (AD over the DAG along qdot) of getCableLength; calcCablePower(T) = "
@@ -25,7 +25,8 @@ BOUNDS = ("trees Pin-Pin, Pin-Slider-Pin, Gimbal-Pin (quick) plus Ball/Universal
           "the printed values flow nowhere else, so the paths are checked nevertheless (allow_events) and the event kinds are listed in "
           "the evidence (taint_reasons must show only ostream operator<<)")
 NOT_COVERED = ("any surface obstacle (geodesic Newton iteration with FactorLU/QTZ and numerical Jacobians via Differentiator), "
-               "CableSpan (its path solver runs for every configuration, also without obstacles, through the same numerical machinery), "
+               "CableSpan with obstacles (its path solver uses FactorQTZ/FactorSVD); CableSpan without obstacles IS covered "
+               "(length, lengthDot, power, forces; via points only), "
                "solveForInitialCablePath (a stub in the library), integrated length-dot bookkeeping over time, rounding")
 
 
@@ -44,6 +45,12 @@ def instances(tier, seed):
                 # triangle inequality: square roots in an inequality -> one free coordinate, no flips
                 out.append(dict(name="%s/via%d/tri" % (nm, nvia), args=[spec_, str(nvia)], paths=1, nvia=nvia, tier=tier, allow_events=True,
                                 part="tri"))
+    # the same cables through the newer CableSubsystem / CableSpan API (no obstacles: via points only)
+    for spec_, nm, vias in ((trees[0] + ((1,),), trees[1] + ((2,),)) if tier == "quick" else [t + ((0, 1, 2),) for t in trees]):
+        for nvia in vias:
+            # (CableSpan re-normalises unit vectors: nested square roots make each power identity a ~10-30 s query)
+            out.append(dict(name="span:%s/via%d" % (nm, nvia), args=[spec_, str(nvia), "span"], paths=1, nvia=nvia, tier=tier, allow_events=True,
+                            part="all", qsel=len(out), base_points=1 if tier == "quick" else 3))
     return out
 
 
@@ -101,7 +108,7 @@ def obligations(enc, inst, tr):
     tang = {"q%d" % i: qdot[i] for i in range(nq) if ("q%d" % i) in tr.input_by_name}
     obs.append(eq(enc, "getCableLengthDot = d/dt getCableLength (AD along qdot)", Ldot, enc.out_tangent("L", tang, "qdot")))
     T = g.inp("T")
-    obs.append(eq(enc, "calcCablePower(T) = -T * lengthDot", g.out("power_T"), P.neg(g.mul(T, Ldot))))
+    obs.append(eq_cleared(enc, "calcCablePower(T) = -T * lengthDot", g.out("power_T"), P.neg(g.mul(T, Ldot))))
     if tr.note("T_positive") == "1":
         F = [(g.ov("F%d_w" % b), g.ov("F%d_v" % b)) for b in range(nb)]
         V = [(g.ov("V%d_w" % b), g.ov("V%d_v" % b)) for b in range(nb)]
@@ -109,13 +116,15 @@ def obligations(enc, inst, tr):
         pw = {}
         for b in range(nb):
             pw = P.add(pw, P.add(g.dot(F[b][0], V[b][0]), g.dot(F[b][1], V[b][1])))
-        obs.append(eq(enc, "power of the applied body forces = -T * lengthDot", pw, P.neg(g.mul(T, Ldot))))
+        obs.append(eq_cleared(enc, "power of the applied body forces = -T * lengthDot", pw, P.neg(g.mul(T, Ldot))))
         fs = [{}, {}, {}]
         ms = [{}, {}, {}]
         for b in range(nb):
             fs = g.vadd(fs, F[b][1])
             ms = g.vadd(ms, g.vadd(F[b][0], g.cross(O[b], F[b][1])))
         obs.append(zeros("Newton's third law: the applied forces have zero resultant and zero moment about the ground origin", fs + ms))
+    if tr.note("api") == "span":
+        return obs
     # CableSpring
     k, L0, c = g.inp("k"), g.inp("L0"), g.inp("c")
     obs.append(eqs(enc, "CableSpring length / lengthDot = the path's", [(g.out("sp_L"), L), (g.out("sp_Ldot"), Ldot)]))
